@@ -28,17 +28,42 @@ def _load(modname):
     return importlib.import_module(modname)
 
 
-def _values_close(a, b, tol=1e-6):
+def _values_close(a, b, tol=1e-9, scale=1.0):
     if isinstance(a, (int, float)) and isinstance(b, (int, float)) \
             and not isinstance(a, bool) and not isinstance(b, bool):
         if math.isnan(a) and math.isnan(b):
             return True
-        return abs(a - b) <= tol * max(1.0, abs(a), abs(b))
+        return abs(a - b) <= tol * max(scale, abs(a), abs(b))
     if isinstance(a, (list, tuple)) and isinstance(b, (list, tuple)):
-        return len(a) == len(b) and all(_values_close(x, y, tol) for x, y in zip(a, b))
+        return len(a) == len(b) and all(_values_close(x, y, tol, scale) for x, y in zip(a, b))
     if isinstance(a, dict) and isinstance(b, dict):
-        return a.keys() == b.keys() and all(_values_close(a[k], b[k], tol) for k in a)
+        return a.keys() == b.keys() and all(_values_close(a[k], b[k], tol, scale) for k in a)
     return a == b
+
+
+def _magnitude(values, records):
+    """Largest magnitude among the inputs and the recorded outputs of a path: float
+    outputs computed from them carry rounding error relative to it (cancellation)."""
+    m = 1.0
+    for v in list(values.values()):
+        try:
+            m = max(m, abs(float(core._str_to_frac(v))))
+        except Exception:
+            pass
+
+    def walk(x):
+        nonlocal m
+        if isinstance(x, (int, float)) and not isinstance(x, bool) and not math.isnan(x):
+            m = max(m, abs(x))
+        elif isinstance(x, (list, tuple)):
+            for y in x:
+                walk(y)
+        elif isinstance(x, dict):
+            for y in x.values():
+                walk(y)
+    for _, r in records:
+        walk(r)
+    return m
 
 
 def validate_path(mod, cfg, c, values):
@@ -56,8 +81,9 @@ def validate_path(mod, cfg, c, values):
     if [n for n, _ in sym_records] != [n for n, _ in conc_records] or \
             [n for n, _ in sym_obl] != [n for n, _ in conc_obl]:
         return "tie", "different branch structure (float tie)"
+    scale = _magnitude(values, sym_records)
     for (n, a), (_, b) in zip(sym_records, conc_records):
-        if not _values_close(a, b):
+        if not _values_close(a, b, 1e-9, scale):
             return "mismatch", "record %s: symbolic %r vs concrete %r" % (n, a, b)
     for (n, a), (_, b) in zip(sym_obl, conc_obl):
         if a == "ok" and b == "violated":
